@@ -51,7 +51,8 @@ def h5_case(draw):
     return {"g": g, "typing": typing, "subs": draw(gen.index_boxes(g["n"], 3)), "sub_typing": draw(st.sampled_from(["float", "int", "natural"])),
             "bc": bc, "k": k, "labels": labels, "vdims": draw(gen.vdims_strategy(k, default_ok=False)) if labels == "custom" else None,
             "unit": draw(st.sampled_from(gen.FIELD_UNITS)), "dtype": draw(st.sampled_from(["float", "float", "complex", "int"])),
-            "seed": draw(st.integers(0, 2**31)), "mask": draw(gen.mask_spec(nd)), "ext": draw(st.sampled_from([".h5", ".hdf5"]))}
+            "seed": draw(st.integers(0, 2**31)), "mask": draw(gen.mask_spec(nd)), "ext": draw(st.sampled_from([".h5", ".hdf5"])),
+            "same_path": draw(st.booleans()), "read_twice": draw(st.integers(0, 3)) == 0}
 
 
 def build(case):
@@ -100,7 +101,22 @@ def check_roundtrip(case):
     tag(case["dtype"])
     with tempfile.TemporaryDirectory() as tmp:
         path = os.path.join(tmp, "f" + case["ext"])
+        if case.get("same_path"):
+            # the file name has been written and read before with another field ("latest.h5"): what is read is the
+            # file as it is now, not what an earlier read of the same name found
+            nd_ = mesh.region.ndim
+            other = df.Field(df.Mesh(p1=(0,) * nd_, p2=(3,) * nd_, n=(3,) * nd_,
+                                     subregions={"old": df.Region(p1=(0,) * nd_, p2=(1,) * nd_)}), nvdim=2, value=(1, 2))
+            other.to_file(path)
+            df.Field.from_file(path)
+            tag("overwritten-path")
         f.to_file(path)
+        if case.get("read_twice"):
+            # the field returned by a read is the caller's: moving its mesh in place does not affect a later read
+            first = df.Field.from_file(path)
+            first.mesh.translate(tuple(float(c) for c in first.mesh.cell), inplace=True)
+            first.array[...] = 0
+            tag("read-modify-read")
         with h5py.File(path, "r") as h:
             ds = h["field/array"]
             require(ds.shape == f.array.shape, "h5-array-shape", f"{ds.shape}")
@@ -178,6 +194,6 @@ SUBS = [
 # objects with a history (reads that may fill caches, in-place writes): observables equal those of a fresh object
 from pbt import aged as _aged  # noqa: E402
 
-SUBS.append(_aged.sub("C10", quick=120))
+SUBS.append(_aged.sub("C10", quick=250))
 ASSUMPTIONS = list(ASSUMPTIONS) + ["aged sub-property: library results are a function of the public primary state "
                                    "(corners, n, names, units, bc, subregions, array, validity, labels, mapping, unit)"]
